@@ -132,9 +132,11 @@ def rule_limiter_state_private(ctx, crate, rule="R-LIMITER-STATE"):
             for f in ("capacity", "prev"):
                 if sl.has_field(f, "state::AtomicPosition"):
                     n += 1
-                    ok = b.name in ("state::AtomicPosition::allow", "state::AtomicPosition::reset", "state::AtomicPosition::new")
-                    ctx.check(ok, rule, "atomic-write:%s" % f, b.name, c.loc(), "AtomicPosition.%s written by allow/reset only" % f,
-                              "AtomicPosition.%s written outside allow/reset" % f, cfg)
+                    # tokens are earned in allow() only; reset() re-bases the clock (`prev`) but must not refill the bucket
+                    owners = ("state::AtomicPosition::allow", "state::AtomicPosition::new") + (("state::AtomicPosition::reset",) if f == "prev" else ())
+                    ok = b.name in owners
+                    ctx.check(ok, rule, "atomic-write:%s" % f, b.name, c.loc(), "AtomicPosition.%s written by %s only" % (f, "/".join(K.meth(o) for o in owners)),
+                              "AtomicPosition.%s written in %s%s" % (f, b.name, " (a reset that refills the burst allowance lifts the token-bucket bound)" if f == "capacity" else ""), cfg)
     for (b, i, j, s) in K.constructions(crate, "draw_target::RateLimiter"):
         n += 1
         ctx.check(b.name == "draw_target::RateLimiter::new", rule, "construct", b.name, "%s:%d" % (b.file, s.get("line", 0)),
